@@ -41,7 +41,7 @@ func verifCtxErrKind(kind int) error {
 
 // VerifC12Reuse: `calls` consecutive calls on ONE client. Every call but the last ends in the way
 // selected by prevMode (0: silence until ErrNoResponse, 1: context ended at a symbolic instant,
-// 2: acceptable response at a symbolic instant); the last call meets silence and must follow the
+// 2: acceptable response at a symbolic instant, 3: context with a deadline that passes); the last call meets silence and must follow the
 // schedule 0, T, 3T, ... from its own start and fail at T*(2^n-1).
 func VerifC12Reuse(tries, calls, prevMode int) {
 	k := &verifCall{conn: newVerifConn(), tries: tries, ctxAt: -1, closeAt: -1}
@@ -69,6 +69,15 @@ func VerifC12Reuse(tries, calls, prevMode int) {
 			verifAssume(at >= 0)
 			verifAssume(at < k.budget)
 			ctx.endAt(k.start+at, verifCtxErrKind(1+j%3))
+		}
+		if !last && prevMode == 3 {
+			// a context WITH a deadline (reported by Deadline()) that ends by it
+			at = int64(verifU64("ctx.deadline"))
+			verifAssume(at > 0)
+			verifAssume(at < k.budget)
+			verifAssume(k.start+at <= 1<<40)
+			ctx.deadline = k.start + at
+			ctx.endAt(k.start+at, context.DeadlineExceeded)
 		}
 		if !last && prevMode == 2 {
 			at = int64(verifU64("offer.at"))
